@@ -413,6 +413,12 @@ def run(ctx):
         if sib is not None:
             ctx.count("sibling-format-cids")
             check_accept(ctx, sib, "sibling-format")
+        # a DistinctCount rule is a Python expression over the counted field ("any comparison operator or mathematical
+        # expression"): rules naming only that field stay sound however often they name it
+        counted = model.fields[rng.randrange(len(model.fields))]["name"]
+        for rule in ("%s >= 0 and %s <= 99" % (counted, counted), "%s < 5 or %s > 7 or %s == 6" % (counted, counted, counted), "%s - 3 < 99 and abs(%s) >= 0" % (counted, counted)):
+            if not model.checks or rng.random() < 0.5:
+                check_accept(ctx, rows + [["C", "expression over the count", "DistinctCount", rule]], "distinctcount-expression")
         for _ in range(4):
             rewritten, applied = rewrite(rng, rows)
             check_accept(ctx, rewritten, "rewrite:" + "+".join(sorted(applied)), base_sig, rows)
